@@ -8,6 +8,10 @@ CONSTANTS
   MutDepth = 0
   VarLens = {0}
   BigLens = {}
+  BodyAlphabet = {}
+  BodyExtra = 0
+  BodyCap = 0
+  RepCap = 0
   ShortIds = {0}
   ShortPairIds = {0}
 INIT InitTree
